@@ -2,9 +2,12 @@
    option, unit, list, prod, sumbool, sumor map to OCaml's own types; N,
    positive, Z, nat stay inductive datatypes.  No Extract Constant of ours. *)
 From Coq Require Import ExtrOcamlBasic.
-From BFS Require Import Base.Bytes Path.GoPath Path.Iterate Sort.Order.
+From BFS Require Import Base.Bytes Path.GoPath Path.Iterate Sort.Order Layers.Call Layers.HiddenList.
 Extraction Language OCaml.
 Extraction "model.ml"
   str_eqb clean join2 dir base is_abs rel
   less sort_most sort_least sort_strings
-  iterate_dir_tree cands chain.
+  iterate_dir_tree cands chain
+  prefix_path prefixfs_call prefixfs_readlink_result prefixfs_file_name prefixfs_info_name
+  volumefs_call volumefs_readlink_result hiddenfs_call hidden_norm
+  is_hidden is_parent_of_hidden dir_contains to_abs_symlink hidden_list_calls.
